@@ -81,6 +81,35 @@ def cond_text(test: ast.AST, pol: bool) -> str:
     return src(test) if pol else f"not ({src(test)})"
 
 
+PURITY = None  # hsa.purity.Purity of the analysed tree (set by hsa.core.Repo); None: every unknown call changes state
+MUTABLE_ATTRS: set | None = None  # attribute names stored to outside constructors (set by hsa.align); None: all
+
+
+def position_dependent(v) -> bool:
+    """does evaluating v read state that an intervening effect could have changed?"""
+    for n in ast.walk(v):
+        if isinstance(n, ast.Call):
+            f = n.func
+            if isinstance(f, ast.Name) and (f.id in PURE_CALLS or (f.id.startswith("@") and f.id != "@stale")):
+                continue
+            return True
+        if isinstance(n, ast.Subscript):
+            return True
+        if isinstance(n, ast.Attribute) and (MUTABLE_ATTRS is None or n.attr in MUTABLE_ATTRS):
+            return True
+    return False
+
+
+def _readonly(value) -> bool:
+    if PURITY is not None:
+        return PURITY.expr_is_readonly(value)
+    return _effect_free(value, at="@")
+
+
+def _ticks(trace) -> int:
+    return sum(1 for e in trace if e[0] in ("e", "loop", "with", "def", "class"))
+
+
 class _Sub(ast.NodeTransformer):
     """substitute environment values for loaded names; names bound inside comprehensions/lambdas shadow"""
 
@@ -92,7 +121,13 @@ class _Sub(ast.NodeTransformer):
         if isinstance(node.ctx, ast.Load) and node.id in self.env and not any(node.id in s for s in self.shadow):
             v = self.env[node.id]
             if isinstance(v, ast.AST):
-                return copy.deepcopy(v)
+                v = copy.deepcopy(v)
+                # a value that reads mutable state, used after something may have changed that state, is not the
+                # same as evaluating the expression at the point of use
+                if self.env.get("__t", 0) > (self.env.get("__bt") or {}).get(node.id, 0) and position_dependent(v):
+                    if not (isinstance(v, ast.Call) and isinstance(v.func, ast.Name) and v.func.id == "@stale"):
+                        v = ast.Call(func=ast.Name(id="@stale", ctx=ast.Load()), args=[v], keywords=[])
+                return v
         return node
 
     def _comp(self, node):
@@ -304,7 +339,7 @@ class Summariser:
         fstr = False
         for n in ast.walk(e):
             if isinstance(n, ast.Name):
-                if isinstance(env.get(n.id), ast.AST):
+                if not n.id.startswith("__") and isinstance(env.get(n.id), ast.AST):
                     need = True
             elif isinstance(n, ast.JoinedStr):
                 fstr = True
@@ -396,7 +431,15 @@ class Summariser:
                 break
             nxt = []
             for st in cur:
-                nxt.extend(self.stmt(s, st))
+                for env, trace in self.stmt(s, st):
+                    t = _ticks(trace) + env.get("__ib", 0)
+                    bt = env.get("__bt") or {}
+                    if env.get("__t") != t or -1 in bt.values():
+                        env = dict(env)
+                        env["__t"] = t
+                        if -1 in bt.values():
+                            env["__bt"] = {k: (t if v == -1 else v) for k, v in bt.items()}
+                    nxt.append((env, trace))
             cur = nxt
             self._budget(len(cur))
         return cur
@@ -434,6 +477,11 @@ class Summariser:
                 tagged = True
         if isinstance(target, ast.Name):
             env[target.id] = value
+            bt = dict(env.get("__bt") or {})
+            bt[target.id] = -1  # fixed to the clock at the end of the statement (see block)
+            env["__bt"] = bt
+            if value is not None and not _readonly(value):
+                env["__ib"] = env.get("__ib", 0) + 1  # evaluating a call that may change state is a tick
         elif isinstance(target, (ast.Tuple, ast.List)):
             if isinstance(value, (ast.Tuple, ast.List)) and len(value.elts) == len(target.elts) and not any(isinstance(x, ast.Starred) for x in [*target.elts, *value.elts]):
                 for t, v in zip(target.elts, value.elts):
